@@ -28,7 +28,28 @@ def main() -> int:
         print(f"unknown property {pid}")
         return 2
     if a.replay:
-        return mod.replay(ctx, a.replay)
+        rc = mod.replay(ctx, a.replay)
+        # A failing input that needs the history of the process (an object used a second time, a cache filled by an earlier
+        # evaluation): the case is repeated in this process (the harness rotates argument spellings and second uses with every
+        # evaluation), then the whole job the case came from is run again.
+        for _ in range(10):
+            if rc:
+                break
+            rc = mod.replay(ctx, a.replay)
+        if not rc:
+            import json
+            try:
+                job = (json.load(open(a.replay)).get("case") or {}).get("_job")
+            except Exception:  # noqa: BLE001
+                job = None
+            if job:
+                r = getattr(importlib.import_module(job["module"]), job["fn"])(tuple(job["args"]))
+                found = r.get("violations", []) + r.get("disagreements", []) + r.get("known", [])
+                if found:
+                    print("the case alone does not fail; the job it came from (several cases in one process) does:", str(found[0][1])[:300])
+                    print(f"VIOLATION property={pid} replay={a.replay}")
+                    rc = 1
+        return rc
     if os.environ.get("VERIF_CAMPAIGN_NO_PROOF") and os.environ.get("VERIF_OUT"):
         # mutation campaign (harness/mutate.py): many checks in parallel on scratch copies; the Coq development does not
         # depend on the repository, it was built and checked by the regular run.  Never set by a registered command.
